@@ -36,21 +36,31 @@ const (
 var opNames = []string{"avail", "setlist", "advance", "runtimer", "current"}
 
 // index 5 is never listed (reports for an unknown endpoint); 6.. are used by
-// "big" plans only (lists of up to 12 endpoints)
-var universe = []string{"a", "b", "c", "d", "e", "zz-unknown", "f", "g", "h", "i", "j", "k", "l"}
+// "big" plans only (lists of up to 40 endpoints)
+var universe, bigIdx = func() ([]string, []int) {
+	u := []string{"a", "b", "c", "d", "e", "zz-unknown"}
+	idx := []int{0, 1, 2, 3, 4}
+	for i := 0; i < 35; i++ {
+		idx = append(idx, len(u))
+		u = append(u, fmt.Sprintf("n%02d", i))
+	}
+	return u, idx
+}()
 
-var bigIdx = []int{0, 1, 2, 3, 4, 6, 7, 8, 9, 10, 11, 12}
+// list lengths around which implementations tend to switch strategy
+var bigSizes = []int{7, 8, 9, 12, 13, 15, 16, 17, 24, 31, 32, 33, 40}
 
-// randListBig: 1-12 of 12 names, biased to cross the 8/9 boundary both ways.
+// randListBig: 1-40 of 40 names, biased to the lengths above (so that
+// successive lists cross them both ways).
 //
 //go:norace
 func randListBig(r *rand.Rand, allowEmpty bool) []int {
 	if allowEmpty && r.IntN(15) == 0 {
 		return []int{}
 	}
-	n := 1 + r.IntN(12)
+	n := 1 + r.IntN(len(bigIdx))
 	if r.IntN(2) == 0 {
-		n = 7 + r.IntN(5)
+		n = bigSizes[r.IntN(len(bigSizes))]
 	}
 	p := r.Perm(len(bigIdx))[:n]
 	out := make([]int, n)
@@ -84,7 +94,7 @@ type Plan struct {
 	// it again; Scribble n > 0: it overwrites that slice after every n-th call
 	Alias    bool `json:"alias,omitempty"`
 	InitDup  int  `json:"init_dup,omitempty"`
-	Big      bool `json:"big,omitempty"` // endpoint lists of up to 12 names
+	Big      bool `json:"big,omitempty"` // endpoint lists of up to 40 names
 	Scribble int  `json:"scribble,omitempty"`
 	Ops      []Op `json:"ops"`
 }
@@ -118,7 +128,7 @@ func randList(r *rand.Rand, allowEmpty bool) []int {
 func Generate(r *rand.Rand, profile string, concurrent bool) *Plan {
 	p := &Plan{Profile: profile, Concurrent: concurrent}
 	p.Init = randList(r, false)
-	if !concurrent && profile != "med" && r.IntN(8) == 0 {
+	if !concurrent && r.IntN(8) == 0 {
 		// scale: long endpoint lists; no recovery timeout (the set-valued model
 		// doubles per newly listed endpoint otherwise)
 		p.Big = true
@@ -130,9 +140,6 @@ func Generate(r *rand.Rand, profile string, concurrent bool) *Plan {
 	rs := []int{0, 0, 10, 20, 50}
 	ds := []int{0, 10, 20, 40, 70}
 	p.RMs = rs[r.IntN(len(rs))]
-	if p.Big {
-		p.RMs = 0
-	}
 	switch profile {
 	case "me0":
 		p.DMs = 0
@@ -156,6 +163,11 @@ func Generate(r *rand.Rand, profile string, concurrent bool) *Plan {
 	if r.IntN(4) == 0 {
 		n = 3 + r.IntN(8)
 	}
+	if p.Big && p.RMs > 0 {
+		p.Init = randList(r, false)
+		n = 30 + r.IntN(40) // room to grow the list
+	}
+	lastList := p.Init
 	for i := 0; i < n; i++ {
 		o := Op{}
 		switch x := r.IntN(100); {
@@ -172,8 +184,33 @@ func Generate(r *rand.Rand, profile string, concurrent bool) *Plan {
 		case x < 65:
 			o.K = OpSetList
 			o.List = randList(r, true)
-			if p.Big {
+			if p.Big && p.RMs == 0 {
 				o.List = randListBig(r, true)
+			} else if p.Big {
+				// under a recovery timeout a long list grows and shrinks by a few names
+				// at a time (every newly listed endpoint starts a window; dozens ending
+				// at one instant make the set of possible states explode)
+				l := append([]int(nil), lastList...)
+				for k := r.IntN(6) - 3; k > 0 && len(l) > 1; k-- {
+					j := r.IntN(len(l))
+					l = append(l[:j], l[j+1:]...)
+				}
+				for k := r.IntN(5); k > 0; k-- {
+					x := bigIdx[r.IntN(len(bigIdx))]
+					dup := false
+					for _, y := range l {
+						dup = dup || y == x
+					}
+					if !dup {
+						j := r.IntN(len(l) + 1)
+						l = append(l[:j], append([]int{x}, l[j:]...)...)
+					}
+				}
+				if r.IntN(3) == 0 {
+					r.Shuffle(len(l), func(a, b int) { l[a], l[b] = l[b], l[a] })
+				}
+				o.List = l
+				lastList = l
 			}
 			if !concurrent && r.IntN(6) == 0 {
 				o.Dup = 1 + r.IntN(5)
@@ -191,6 +228,12 @@ func Generate(r *rand.Rand, profile string, concurrent bool) *Plan {
 			o.N = r.IntN(8)
 		}
 		o.ID = i + 1
+		if p.Big && p.RMs > 0 && o.K == OpAdvance && i%4 != 0 {
+			// long lists under a recovery timeout: dozens of windows end at the same
+			// instant; mostly let the timers run (every subset of unprocessed
+			// expiries is a possible state otherwise)
+			o.Hold = false
+		}
 		p.Ops = append(p.Ops, o)
 	}
 	return p
@@ -209,6 +252,13 @@ const (
 type epState struct {
 	kind stKind
 	t    time.Duration // end of the recovery window
+	// fresh: a newly listed endpoint under a recovery timeout - "known
+	// unavailable" by the statement, recovering until t for the implementation
+	// (and its pinned tests). Both readings are accepted; they differ only once
+	// the endpoint is, was or becomes the current one, so the state is split in
+	// two (split) only then - not when the endpoint is listed, which would
+	// double the set of possible states per endpoint.
+	fresh bool
 }
 
 type member struct {
@@ -222,7 +272,7 @@ func (m member) key(list []string) string {
 	b.WriteString(m.cur)
 	for _, e := range list {
 		s := m.st[e]
-		fmt.Fprintf(&b, "|%s:%d:%d", e, s.kind, s.t)
+		fmt.Fprintf(&b, "|%s:%d:%d:%v", e, s.kind, s.t, s.fresh)
 	}
 	return b.String()
 }
@@ -237,9 +287,10 @@ func (m member) clone() member {
 }
 
 type model struct {
-	list    []string
-	members []member
-	r, d    time.Duration
+	list     []string
+	members  []member
+	r, d     time.Duration
+	overflow bool // the set of possible states outgrew maxMembers: no verdicts
 }
 
 //go:norace
@@ -276,6 +327,41 @@ func rule(list []string, m member) string {
 	return m.cur
 }
 
+// split resolves the two readings of a newly listed endpoint e (see epState).
+//
+//go:norace
+func split(m member, e string) []member {
+	s, ok := m.st[e]
+	if !ok || !s.fresh {
+		return []member{m}
+	}
+	u, r := m.clone(), m.clone()
+	u.st[e] = epState{kind: unavailable}
+	r.st[e] = epState{kind: recovering, t: s.t}
+	return []member{u, r}
+}
+
+//go:norace
+func splitAll(ms []member, e string) []member {
+	var out []member
+	for _, m := range ms {
+		out = append(out, split(m, e)...)
+	}
+	return out
+}
+
+// ruleSplit recomputes Current() by the statement for every reading of the
+// current endpoint's status.
+//
+//go:norace
+func ruleSplit(list []string, m member) []member {
+	vs := split(m, m.cur)
+	for i := range vs {
+		vs[i].cur = rule(list, vs[i])
+	}
+	return vs
+}
+
 //go:norace
 func (mo *model) dedupe(ms []member) []member {
 	seen := map[string]bool{}
@@ -292,33 +378,58 @@ func (mo *model) dedupe(ms []member) []member {
 
 // closure: every state reachable by processing any subset of due expiries, in
 // any order, recomputing current after each (when there is no switching delay).
+// When every fired timer has run (drained) every due expiry has been processed:
+// only the fully processed states are produced. The subsets are exponential in
+// the number of simultaneously due expiries; beyond maxMembers the run is given
+// up without a verdict (mo.overflow).
 //
 //go:norace
-func (mo *model) closure(ms []member, now time.Duration) []member {
+func (mo *model) closure(ms []member, now time.Duration, drained bool) []member {
 	out := append([]member(nil), ms...)
 	seen := map[string]bool{}
 	for _, m := range out {
 		seen[m.key(mo.list)] = true
 	}
+	var full []member
 	for i := 0; i < len(out); i++ {
 		m := out[i]
+		due := false
 		for _, e := range mo.list {
 			s := m.st[e]
 			if s.kind == recovering && s.t <= now {
+				due = true
 				n := m.clone()
 				n.st[e] = epState{kind: unavailable}
+				vs := []member{n}
 				if mo.d == 0 {
-					n.cur = rule(mo.list, n)
+					vs = ruleSplit(mo.list, n)
 				}
-				if k := n.key(mo.list); !seen[k] {
-					seen[k] = true
-					out = append(out, n)
+				for _, v := range vs {
+					if k := v.key(mo.list); !seen[k] {
+						seen[k] = true
+						out = append(out, v)
+					}
+				}
+				if drained {
+					break // the order of processing does not change the fully processed state
 				}
 			}
 		}
+		if !due {
+			full = append(full, m)
+		}
+		if len(out) > maxMembers {
+			mo.overflow = true
+			return out[:1]
+		}
+	}
+	if drained {
+		return full
 	}
 	return out
 }
+
+const maxMembers = 512
 
 //go:norace
 func (mo *model) newEndpointVariants(ms []member, e string, now time.Duration) []member {
@@ -326,15 +437,15 @@ func (mo *model) newEndpointVariants(ms []member, e string, now time.Duration) [
 	for _, m := range ms {
 		// A new endpoint has never been reported available: "known unavailable"
 		// by the statement; the implementation (and its pinned tests) lets it
-		// recover for the recovery timeout first. Both readings are accepted.
+		// recover for the recovery timeout first. Both readings are accepted
+		// (resolved lazily, see epState.fresh).
 		u := m.clone()
-		u.st[e] = epState{kind: unavailable}
-		out = append(out, u)
 		if mo.r > 0 {
-			rcv := m.clone()
-			rcv.st[e] = epState{kind: recovering, t: now + mo.r}
-			out = append(out, rcv)
+			u.st[e] = epState{kind: recovering, t: now + mo.r, fresh: true}
+		} else {
+			u.st[e] = epState{kind: unavailable}
 		}
+		out = append(out, u)
 	}
 	return out
 }
@@ -358,9 +469,10 @@ func (mo *model) applyAvail(ms []member, e string, up bool, now time.Duration) [
 			}
 		}
 		if mo.d == 0 {
-			n.cur = rule(mo.list, n)
+			out = append(out, ruleSplit(mo.list, n)...)
+		} else {
+			out = append(out, n)
 		}
-		out = append(out, n)
 	}
 	return out
 }
@@ -385,10 +497,12 @@ func (mo *model) applySetList(ms []member, list []string, now time.Duration) []m
 			cur = mo.newEndpointVariants(cur, e, now)
 		}
 	}
-	for i := range cur {
-		if mo.d == 0 {
-			cur[i].cur = rule(list, cur[i])
+	if mo.d == 0 {
+		var out []member
+		for i := range cur {
+			out = append(out, ruleSplit(list, cur[i])...)
 		}
+		return out
 	}
 	return cur
 }
@@ -542,6 +656,17 @@ func (s *sim) kernelFailure() {
 		s.res.Harness = f.Kind + ": " + f.Msg
 		s.stop = true
 	}
+}
+
+// overflowed: the model gave up (see closure); the run ends without a verdict.
+//
+//go:norace
+func (s *sim) overflowed() bool {
+	if s.mo.overflow && !s.stop {
+		s.stop = true
+		s.res.Count("model_state_set_too_large_run_not_judged", 1)
+	}
+	return s.mo.overflow
 }
 
 //go:norace
@@ -786,7 +911,10 @@ func (s *sim) exec(o Op) {
 		if !s.drained() {
 			s.res.Count("probe:api_call_inside_fired_not_run_window", 1)
 		}
-		before := mo.closure(mo.members, now)
+		before := mo.closure(mo.members, now, s.drained())
+		if s.overflowed() {
+			return
+		}
 		mo.members = mo.dedupe(mo.applyAvail(before, e, o.Up, now))
 		s.observe(fmt.Sprintf("avail(%s,%v)", e, o.Up), true)
 	case OpSetList:
@@ -802,6 +930,12 @@ func (s *sim) exec(o Op) {
 			return
 		}
 		s.res.Count("op:setlist", 1)
+		if len(list) >= 13 {
+			s.res.Count("probe:list_of_13_or_more_endpoints", 1)
+			if mo.r > 0 {
+				s.res.Count("probe:list_of_13_or_more_endpoints_under_recovery_timeout", 1)
+			}
+		}
 		if len(list) == 0 {
 			s.res.Count("fault:empty_endpoint_list", 1)
 			if err == nil {
@@ -818,7 +952,10 @@ func (s *sim) exec(o Op) {
 		if !s.drained() {
 			s.res.Count("probe:api_call_inside_fired_not_run_window", 1)
 		}
-		before := mo.closure(mo.members, now)
+		before := mo.closure(mo.members, now, s.drained())
+		if s.overflowed() {
+			return
+		}
 		mo.members = mo.dedupe(mo.applySetList(before, list, now))
 		s.observe(fmt.Sprintf("setlist(%v)", list), true)
 	case OpAdvance:
@@ -879,7 +1016,10 @@ func (s *sim) runTimer(t *kern.Task) {
 	}
 	s.res.Count("op:timer_callback_run", 1)
 	now := s.k.Elapsed()
-	s.mo.members = s.mo.dedupe(s.mo.closure(s.mo.members, now))
+	s.mo.members = s.mo.dedupe(s.mo.closure(s.mo.members, now, false))
+	if s.overflowed() {
+		return
+	}
 	s.observe("timer:"+t.Name, false)
 }
 
@@ -949,7 +1089,10 @@ func (s *sim) observe0(what string, api bool) {
 			mo.members = keep
 		} else {
 			// all members still hold an unprocessed expiry: process them
-			mo.members = mo.closure(mo.members, now)
+			mo.members = mo.closure(mo.members, now, true)
+			if s.overflowed() {
+				return
+			}
 			keep = keep[:0]
 			for _, m := range mo.members {
 				ok := true
@@ -991,6 +1134,7 @@ func (s *sim) observe0(what string, api bool) {
 	}
 	// switching delay: constraints, violated only if violated under every member
 	c := s.prev
+	mo.members = splitAll(splitAll(mo.members, c), x)
 	type verdict struct{ rule, msg string }
 	var all []verdict
 	okSome := false
@@ -1266,6 +1410,9 @@ func describe(mo *model) string {
 			x := e + "=" + kindName(st.kind)
 			if st.kind == recovering {
 				x += fmt.Sprintf("(until %v)", st.t)
+			}
+			if st.fresh {
+				x = e + fmt.Sprintf("=new(unavailable, or recovering until %v)", st.t)
 			}
 			es = append(es, x)
 		}
